@@ -15,6 +15,11 @@ T0 = time.time()
 os.environ.setdefault('VERIF_CAP', str(4 * 1024 * 1024))
 
 
+# properties whose theorems do not mention the codecs (objects are opaque cargo of queues, streams and threads): a class that leaves the
+# translator's grammar or the verified fragment is reported by the codec properties, not by these
+NONCODEC_PROPS = ('C06', 'C07', 'C11', 'C12', 'C13', 'C15', 'C16')
+
+
 class Result:
     def __init__(self, pid, tier):
         self.pid = pid
@@ -61,7 +66,10 @@ class Pipe:
                 except Exception as e:
                     self.res.oblige('T:signature-search-loop-shape', False, str(e))
                 for k, v in un.items():
-                    self.res.oblige('T:grammar:' + k, False, v)
+                    if self.res.pid in NONCODEC_PROPS:
+                        self.res.notes.append('class %s is outside the translator\'s grammar (%s): not an obligation of this property, whose theorems treat objects as opaque cargo; the sessions draw their objects from the other classes' % (k, v))
+                    else:
+                        self.res.oblige('T:grammar:' + k, False, v)
         return self.tr
 
     def checks(self):
@@ -523,6 +531,11 @@ def coverage_obligations(pipe, res, summary, regres):
     base = load_baseline()
     names = [c['name'] for c in summary['classes']]
     exact = set(n for n, v in regres.items() if v)
+    if res.pid in NONCODEC_PROPS:
+        gone = [n for n in base['exact'] if n not in exact]
+        if gone:
+            res.notes.append('classes outside the verified codec fragment on this tree: %s (an obligation of the codec properties, not of this one)' % ', '.join(gone[:10]))
+        return exact
     for n in base['exact']:
         if n not in names:
             res.notes.append('class %s of the baseline no longer exists' % n)
